@@ -294,5 +294,5 @@ def pair(draw, tier):
     return {"base": base, "transform": tr}
 
 
-PARTS = [Part("pairs", eval_case, {"quick": 1200, "thorough": 30000}, strategy=lambda tier: pair(tier), min_nontrivial={"quick": 400, "thorough": 10000})]
-MIN_SHARE = {"pairs": {f"t:{k}": 0.04 for k in TRANSFORMS}}
+PARTS = [Part("pairs", eval_case, {"quick": 1200, "thorough": 30000}, strategy=lambda tier: pair(tier), min_nontrivial={"quick": 290, "thorough": 7000})]
+MIN_SHARE = {"pairs": {f"t:{k}": 0.03 for k in TRANSFORMS}}
